@@ -252,17 +252,21 @@ type obsT struct {
 	Off      int64  `json:"off,omitempty"`
 	Len      int    `json:"len,omitempty"`
 	Shape    string `json:"shape,omitempty"` // readat: how the range was chosen
+	Warm     bool   `json:"warm,omitempty"`  // readat: first read one byte at WarmOff (the leaf before the damaged one) on the same reader and let its prefetcher fetch the damaged leaf
+	WarmOff  int64  `json:"warm_off,omitempty"`
 	Prefetch int    `json:"prefetch"`
 	CacheL   int    `json:"cache_leaves"`
 	RCW      int    `json:"rcw"`
 }
 
 type resT struct {
-	openErr error
-	err     error // terminal error of the read (nil: clean completion)
-	data    []byte
-	n       int64
-	mask    []bool // writetoat: which offsets were written
+	warmErr  error  // warm-up read: error, or
+	warmByte []byte // the byte it returned as valid
+	openErr  error
+	err      error // terminal error of the read (nil: clean completion)
+	data     []byte
+	n        int64
+	mask     []bool // writetoat: which offsets were written
 }
 
 type sliceWriterAt struct {
@@ -302,12 +306,12 @@ type plainWriter struct{ b bytes.Buffer }
 func (p *plainWriter) Write(b []byte) (int, error) { return p.b.Write(b) }
 
 // newFs builds a fresh cafs on the (possibly damaged) store: hash verification is left at its default
-func newFs(be *memstore.Backend, L uint32, o obsT) (cafs.Fs, error) {
+func newFs(view *memstore.Store, L uint32, o obsT) (cafs.Fs, error) {
 	cl := o.CacheL
 	if cl < 1 {
 		cl = 1
 	}
-	return cafs.New(cafs.LeafSize(L), cafs.Backend(be.View("reader")), cafs.Logger(hx.Nop),
+	return cafs.New(cafs.LeafSize(L), cafs.Backend(view), cafs.Logger(hx.Nop),
 		cafs.CacheSize(cl*int(L)), cafs.Prefetch(o.Prefetch), cafs.ReaderConcurrentChunkWrites(o.RCW))
 }
 
@@ -316,6 +320,14 @@ func newFs(be *memstore.Backend, L uint32, o obsT) (cafs.Fs, error) {
 type fsPool struct {
 	shared bool
 	m      map[string]cafs.Fs
+	mu     sync.Mutex
+	gets   map[string]int // Get calls per blob key issued by the reader side (used to wait for a prefetcher)
+}
+
+func (p *fsPool) getsOf(key string) int {
+	p.mu.Lock()
+	defer p.mu.Unlock()
+	return p.gets[key]
 }
 
 func (p *fsPool) get(st *stored, o obsT) (cafs.Fs, error) {
@@ -325,7 +337,18 @@ func (p *fsPool) get(st *stored, o obsT) (cafs.Fs, error) {
 			return fs, nil
 		}
 	}
-	fs, err := newFs(st.be, st.obj.Leaf, o)
+	view := st.be.View("reader")
+	view.After(func(c *memstore.Call) {
+		if c.Op == memstore.OpGet {
+			p.mu.Lock()
+			if p.gets == nil {
+				p.gets = map[string]int{}
+			}
+			p.gets[c.Key]++
+			p.mu.Unlock()
+		}
+	})
+	fs, err := newFs(view, st.obj.Leaf, o)
 	if err != nil {
 		return nil, fmt.Errorf("harness: cafs.New: %v", err)
 	}
@@ -338,7 +361,7 @@ func (p *fsPool) get(st *stored, o obsT) (cafs.Fs, error) {
 	return fs, nil
 }
 
-func observe(st *stored, o obsT, pool *fsPool) (resT, error) {
+func observe(st *stored, o obsT, pool *fsPool, watchKey string) (resT, error) {
 	var res resT
 	fs, err := pool.get(st, o)
 	if err != nil {
@@ -394,6 +417,22 @@ func observe(st *stored, o obsT, pool *fsPool) (resT, error) {
 		if err != nil {
 			res.openErr = err
 			return res, nil
+		}
+		if o.Warm {
+			before := pool.getsOf(watchKey)
+			wb := make([]byte, 1)
+			wn, werr := r.ReadAt(wb, o.WarmOff)
+			if werr != nil && werr != io.EOF {
+				res.warmErr = werr
+			} else {
+				res.warmByte = wb[:wn]
+			}
+			// give the prefetcher started by the warm-up read the time to fetch the damaged leaf and to
+			// put it in the cache (scenario shaping only: nothing is concluded from the timing)
+			for i := 0; i < 300 && watchKey != "" && pool.getsOf(watchKey) == before; i++ {
+				time.Sleep(100 * time.Microsecond)
+			}
+			time.Sleep(200 * time.Microsecond)
 		}
 		buf := make([]byte, o.Len)
 		n, err := r.ReadAt(buf, o.Off)
@@ -495,6 +534,17 @@ func judge(st *stored, d damageT, o obsT, r resT) error {
 	case "readat":
 		if r.openErr != nil {
 			return nil
+		}
+		if o.Warm {
+			warmCovers := d.Root || (o.WarmOff >= int64(d.Lo) && o.WarmOff < int64(d.Hi))
+			switch {
+			case r.warmErr != nil && !d.Effective:
+				return fmt.Errorf("healthy store: warm-up ReadAt(off=%d,len=1) failed: %v", o.WarmOff, r.warmErr)
+			case r.warmErr == nil && len(r.warmByte) == 1 && r.warmByte[0] != orig[o.WarmOff]:
+				return fmt.Errorf("warm-up ReadAt(off=%d,len=1) returned an altered byte without error", o.WarmOff)
+			case r.warmErr == nil && d.Effective && warmCovers:
+				return fmt.Errorf("damaged blob served as valid: warm-up ReadAt(off=%d,len=1) completed without error", o.WarmOff)
+			}
 		}
 		var want []byte
 		if o.Off < int64(size) {
@@ -644,6 +694,9 @@ func sig(o objT, c corrT, ob obsT) string {
 	style := ob.Style
 	if ob.Style == "readat" {
 		style += ":" + ob.Shape + fmt.Sprintf(":pf%d", min(ob.Prefetch, 1))
+		if ob.Warm {
+			style += ":warm"
+		}
 	}
 	if ob.Style == "read" {
 		style += ":" + bufClass(ob.Bufs, int(o.Leaf))
@@ -730,7 +783,11 @@ func runPrepared(c caseT, record bool, st, ost *stored) error {
 		var res resT
 		gerr, hung, panicked := hx.Guard(30*time.Second, func() error {
 			var e error
-			res, e = observe(st, o, pool)
+			watch := ""
+			if c.Corr.Target >= 0 {
+				watch = st.key(c.Corr.Target)
+			}
+			res, e = observe(st, o, pool, watch)
 			return e
 		})
 		switch {
@@ -942,6 +999,10 @@ func drawObs(t *rapid.T, obj objT, c corrT) obsT {
 			o.Off = int64(rapid.IntRange(0, size+L).Draw(t, "off"))
 			o.Len = rapid.IntRange(0, 3*L).Draw(t, "len")
 		}
+		if o.Prefetch > 0 && c.Target > 0 && rapid.Bool().Draw(t, "warm") {
+			o.Warm = true
+			o.WarmOff = int64((c.Target-1)*L + rapid.IntRange(0, L-1).Draw(t, "warmoff"))
+		}
 	}
 	return o
 }
@@ -970,7 +1031,15 @@ func drawCase(t *rapid.T) caseT {
 	c.SharedFs = rapid.Bool().Draw(t, "sharedfs")
 	n := rapid.IntRange(1, 4).Draw(t, "nobs")
 	for i := 0; i < n; i++ {
-		c.Obs = append(c.Obs, drawObs(t, c.Obj, c.Corr))
+		o := drawObs(t, c.Obj, c.Corr)
+		if c.SharedFs && i > 0 && rapid.Bool().Draw(t, "sameopts") {
+			// same option set as the first observation: really the same Fs (leaf cache, keys cache)
+			o.CacheL, o.RCW, o.Prefetch = c.Obs[0].CacheL, c.Obs[0].RCW, c.Obs[0].Prefetch
+			if o.Prefetch == 0 {
+				o.Warm = false
+			}
+		}
+		c.Obs = append(c.Obs, o)
 	}
 	return c
 }
@@ -1089,6 +1158,14 @@ func enumObs(obj objT, c corrT, bothPrefetch bool) []obsT {
 			o.Style, o.Shape, o.Off, o.Len, o.Prefetch = "readat", r.shape, int64(r.off), r.len, pf
 			out = append(out, o)
 		}
+	}
+	if bothPrefetch && c.Target > 0 {
+		// the damaged leaf reaches the reader through the prefetcher started by a read of the leaf before it;
+		// own option set (cache size 5), so a fresh Fs
+		o := base
+		o.Style, o.Shape, o.Off, o.Len, o.Prefetch, o.CacheL = "readat", "leaf", int64(lo), hi-lo, 1, 5
+		o.Warm, o.WarmOff = true, int64(lo-L)
+		out = append(out, o)
 	}
 	return out
 }
